@@ -60,7 +60,7 @@ func (P *Prog) verifyFunc(key string, sweepOnly bool) (res *FuncResult) {
 		return
 	}
 	st := &State{declSet: map[string]bool{}, heaps: map[string]string{}, hsort: map[string]string{}, cells: map[*Cell]Val{},
-		written: map[string]bool{}, ghost: map[string]string{}}
+		written: map[string]bool{}, ghost: map[string]string{}, boolDef: map[string]string{}, factSet: map[string]bool{}}
 	st.declare("top_0", "Int")
 	st.top = "top_0"
 	st.assume("(>= top_0 1)")
@@ -142,7 +142,14 @@ func (x *Exec) atExit(st *State, fr *Frame, rets []Val, pos token.Pos) {
 		if lbl == "" {
 			lbl = fmt.Sprintf("ensures%d", i)
 		}
-		x.emit(st, "post", lbl, en.Text, g.T, en.Props, pos, fr)
+		parts := splitGoal(g.T)
+		for pi, part := range parts {
+			l2 := lbl
+			if len(parts) > 1 {
+				l2 = fmt.Sprintf("%s#%d", lbl, pi+1)
+			}
+			x.emit(st, "post", l2, en.Text, part, en.Props, pos, fr)
+		}
 	}
 }
 
